@@ -67,7 +67,14 @@ impl Scenario for History {
         let n_ops = if long { 40 + rng.below(if tier == Tier::Quick { 300 } else { 1500 }) } else { 1 + rng.below(12) };
         let alpha = if long { draw_alpha(rng) } else { IdAlpha::Small };
         let pool = if long && rng.chance(50) { ContPool::Mixed } else if rng.chance(70) { ContPool::Colliding } else { ContPool::Tagged };
-        let init = if rng.chance(35) { Some(ImageSrc::draw(rng, 50, 0)) } else { None };
+        let init = if rng.below(6000) == 0 {
+            let ic = *rng.pick(&[2u8, 4]);
+            Some(ImageSrc::Written { a: crate::case::draw_archive(rng, crate::case::SizeClass::ManyRegular, ic), face: Face::Sync, w: crate::disk::Policy::plain(), scramble: 1 })
+        } else if rng.chance(35) {
+            Some(ImageSrc::draw(rng, 50, 0))
+        } else {
+            None
+        };
         let face = Face::draw(rng);
         let with_empty = self.prop == "C19";
         let mut ops = Vec::new();
@@ -288,6 +295,9 @@ fn run_history(prop: &str, c: &HistCase, enforce: bool, ctx: &mut Ctx) -> V<Vec<
                 if check_store {
                     crate::scen_hist::check_image_dedup(&st.model, &image, ctx).map_err(|v| Violation::new(v.class, format!("op {i}: {}", v.detail)))?;
                 }
+                if enforce && p == "C02" {
+                    check_image_valid(&st.model, &image, ctx).map_err(|v| Violation::new(v.class, format!("op {i}: {}", v.detail)))?;
+                }
                 // restart: only the image survives
                 let disk = SimDisk::new(image, &c.sched.r);
                 let h2 = disk.clone();
@@ -331,7 +341,27 @@ fn run_history(prop: &str, c: &HistCase, enforce: bool, ctx: &mut Ctx) -> V<Vec<
     if check_store {
         check_image_dedup(&st.model, &image, ctx)?;
     }
+    if enforce && p == "C02" {
+        check_image_valid(&st.model, &image, ctx)?;
+    }
     Ok(image)
+}
+
+/// C02 on an image saved in the middle of an edit history: independent validator + lookups.
+fn check_image_valid(model: &BTreeMap<u64, Vec<u8>>, image: &[u8], ctx: &mut Ctx) -> V<()> {
+    let v = match spec::validate(image) {
+        Ok(v) => v,
+        Err(e) => vio!(format!("C02:invalid:{}", crate::scen_life::class_of(&e)), "independent validator rejects an archive saved during an edit history: {e}"),
+    };
+    ensure!(v.walk.tiles.len() == model.len() && v.walk.tiles.keys().eq(model.keys()), "C02:addressed-set", "directories address {} ids, the archive holds {}", v.walk.tiles.len(), model.len());
+    for (id, bytes) in model.iter().step_by((model.len() / 200).max(1)) {
+        match spec::lookup(image, &v.header, *id) {
+            Ok(Some((off, len))) => ensure!(spec::tile_bytes(image, &v.header, off, len).ok() == Some(&bytes[..]), "C02:lookup-bytes", "specification lookup of tile {id} returns different bytes"),
+            other => vio!("C02:lookup-missing", "specification lookup of tile {id}: {other:?}"),
+        }
+    }
+    ctx.bump("validated_images", 1);
+    Ok(())
 }
 
 fn check_lookup(p: &str, st: &mut State, id: u64, face: Face, i: usize) -> V<()> {
